@@ -39,7 +39,7 @@ ASSUMPTIONS = [
     "file format and pixel content are not judged (not in the statement); the spline composition plot is only required not to raise",
 ]
 REQUIRED = {"all": ["figures", "saved_files", "getfig_returns", "phase_markers_checked", "uversky_markers_checked",
-                    "multi_marker_figures", "labels_checked", "limits_below_one", "region_points_checked",
+                    "multi_marker_figures", "labels_checked", "label_lists_with_some_empty_entries", "limits_below_one", "region_points_checked",
                     "linear_bar_figures", "long_linear_plots", "net_negative_uversky_saves", "complexity_bar_figures", "numpy_coordinate_arguments", "coincident_markers", "near_threshold_large_N_cases", "figures_after_unclosed_save", "tiny_linear_plots"]}
 NFIG = {"quick": 640, "thorough": 4000}
 NMAX = {"quick": 40, "thorough": 90}
@@ -194,6 +194,9 @@ def judge_regions(case, rep, S):
         rep.sample({"N": N, "polygons": [[(str(x), str(y)) for x, y in p] for p in polysets[0][1]]})
 
 
+_partly = [0]
+
+
 def rand_args(rng, multi=None):
     kw = {}
     label = None
@@ -204,6 +207,11 @@ def rand_args(rng, multi=None):
             label = ["s%d" % i for i in range(multi)]
             if rng.random() < 0.3:
                 label[0] = rng.choice(["\u03b1-syn", "A\u03b242", "prot\u00e9ine \u2116 1"])
+            if multi >= 2 and rng.random() < 0.3:
+                # only some of the points are named
+                for i_ in rng.sample(range(multi), rng.randint(1, multi - 1)):
+                    label[i_] = ""
+                _partly[0] += 1
     if rng.random() < 0.5:
         kw["title"] = rng.choice(["T", "My title", "Diagram", "", "\u03b1-synuclein vs. A\u03b2", "Diagramme d'\u00e9tats",
                                   "A rather long title that describes the forty-two constructs of this study in quite some detail",
@@ -239,6 +247,8 @@ def check_scatter(rep, snap, kind, entry, coords, label, kw, multi):
     else:
         want_texts = [label] if label else []
     rep.cnt("labels_checked")
+    if rep.counters.get("label_lists_with_some_empty_entries", 0) < _partly[0]:
+        rep.cnt("label_lists_with_some_empty_entries", _partly[0] - rep.counters.get("label_lists_with_some_empty_entries", 0))
     # empty annotations are not labels: compare the non-empty texts, in order
     if [t for t in snap["texts"] if t != ""] != [t for t in want_texts if t != ""]:
         rep.viol("labels", "%s drew labels %r, requested %r" % (ctx, snap["texts"], want_texts), sig={"entry": entry})
